@@ -26,6 +26,9 @@ pub mod c33;
 pub mod c34;
 pub mod c05;
 pub mod c20;
+pub mod c29;
+pub mod c31;
+pub mod c35;
 pub mod c36;
 pub mod c22;
 pub mod c25;
@@ -36,6 +39,9 @@ pub mod c32;
 
 pub fn registry() -> Vec<(&'static str, fn() -> Property)> {
     vec![
+        ("C35", c35::property),
+        ("C31", c31::property),
+        ("C29", c29::property),
         ("C20", c20::property),
         ("C05", c05::property),
         ("C34", c34::property),
